@@ -46,6 +46,35 @@ PC_CFG = {
                r'dwarf_dieoffset': 'm_dwarf_dieoffset', r'dwarf_haschildren': 'm_dwarf_haschildren', r'throw_libdw.*': 'm_throw_libdw',
                VPAIR + r'::push_back': 'vec_pair_push_back', r'std::make_pair': 'make_offpair'},
 }
+DWKEY = r'(const )?std::pair<Dwarf \*, unsigned long>'
+PCMAP = r'(const )?(std::map<' + DWKEY + r', ' + VPAIR + r'(, .*)?>|parent_cache::cache_t)'
+PCENT = r'(const )?std::pair<const std::pair<Dwarf \*, unsigned long>, ' + VPAIR + r'>'
+PCENT2 = r'(const )?std::pair<std::pair<Dwarf \*, unsigned long>, ' + VPAIR + r'>'
+PCIT = r'(const )?std::(_Rb_tree_(const_)?iterator<' + PCENT + r'>|map<.*>::(const_)?iterator)'
+PCINS = r'(const )?std::pair<std::_Rb_tree_iterator<' + PCENT + r'>, bool>'
+VPIT = r'(const )?(__gnu_cxx::__normal_iterator<(const )?' + OPAIR + r' \*, ' + VPAIR + r'>|' + VPAIR + r'::(const_)?iterator)'
+PF_CFG = dict(PC_CFG)
+PF_CFG['names'] = dict(PC_CFG['names'], **{'parent_cache::find': 'parent_cache_find'})
+PF_CFG['types'] = dict(PC_CFG['types'], **{DWKEY: 'dwkey', PCMAP: 'pcmap', PCENT: 'pcentry', PCENT2: 'pcentry', PCIT: 'pcentry *', PCINS: 'pcins', VPIT: 'offpair *'})
+PF_CFG['types_are_records'] = dict(PC_CFG['types_are_records'], **{DWKEY: True, PCMAP: True, PCENT: True, PCENT2: True, PCINS: True})
+PF_CFG['record_ctypes'] = ['offpair', 'vec_pair', 'dwkey', 'pcmap', 'pcentry', 'pcins']
+PF_CFG['opaque_records'] = []
+PF_CFG['types_prelude'] = '#include "dw_model.h"\n#include "pf_model.h"\n'
+PF_CFG['functor_types'] = [r'\(lambda at .*\)']
+PF_CFG['extern'] = dict(PC_CFG['extern'], **{
+    r'dwarf_diecu': 'm_dwarf_diecu', r'dwarf_cu_getdwarf': 'm_dwarf_cu_getdwarf', r'dwarf_cuoffset': 'm_dwarf_cuoffset',
+    r'std::make_pair\|.*Dwarf \*&.*': 'make_dwkey', r'std::make_pair\|.*vector.*': 'make_pcentry',
+    PCMAP + r'::find': 'pcmap_find', PCMAP + r'::end': 'pcmap_end', PCMAP + r'::insert': 'pcmap_insert',
+    r'std::operator==\|.*_Rb_tree_.*': {'c': 'IT_EQ', 'by_value': True}, r'std::_Rb_tree_(const_)?iterator<.*>::operator==': {'c': 'IT_EQ', 'by_value': True},
+    r'std::_Rb_tree_(const_)?iterator<.*>::operator->': {'c': 'PTR_ID', 'by_value': True},
+    r'std::_Rb_tree_(const_)?iterator<.*>::operator=': None,
+    VPAIR + r'::begin': 'VPAIR_BEGIN', VPAIR + r'::end': 'VPAIR_END',
+    r'std::lower_bound': 'vec_pair_lower_bound',
+    r'__gnu_cxx::operator!=.*': {'c': 'IT_NE', 'by_value': True}, r'__gnu_cxx::operator==.*': {'c': 'IT_EQ', 'by_value': True},
+    r'__gnu_cxx::__normal_iterator<.*>::operator->': {'c': 'PTR_ID', 'by_value': True},
+})
+PF_CFG['extern'] = {k: v for k, v in PF_CFG['extern'].items() if v is not None}
+PF_ROOTS = ['parent_cache::find']
 PC_ROOTS = ['parent_cache::populate_unit']
 
 
@@ -55,17 +84,24 @@ def jobs(tier):
     psrc = [os.path.join(HERE, 'pc_harness.c'), os.path.join(OUT, 'pc_bodies.c')]
     A = ['--object-bits', '10']
     nn = 5 if tier == 'quick' else 6
-    pn = 5 if tier == 'quick' else 7
+    pn = 5 if tier == 'quick' else 6
     ntrees = len(unit_trees(pn))
+    fn = 3
+    nforests = len(forests(fn))
     D = ['NN=%d' % nn]
     J = [Job('bounded_all_dies_n%d' % nn, isrc, 'hb_all_dies', includes=inc, defines=D, kind='bounded', unwind=9, timeout=3000, cbmc_args=A,
              inputs=['g_n'], note='all_dies_iterator over every forest of <= %d DIEs in any number of units' % nn),
-         Job('bounded_parent_table_n%d' % pn, psrc, 'hb_parent_table', includes=inc, defines=['NN=%d' % pn], kind='bounded', unwind=ntrees + 2, timeout=1200, cbmc_args=A,
+         Job('bounded_parent_table_n%d' % pn, psrc, 'hb_parent_table', includes=inc, defines=['NN=%d' % pn], kind='bounded', unwind=ntrees + 2, timeout=1200, mem_gb=16, cbmc_args=['--object-bits', '13'],
              note='parent_cache::populate_unit over every unit tree shape of <= %d DIEs (%d shapes enumerated, offsets symbolic)' % (pn, ntrees)),
+         Job('bounded_parent_find_n%d' % fn, [os.path.join(HERE, 'pf_harness.c'), os.path.join(OUT, 'pf_bodies.c')], 'hb_parent_find', includes=inc,
+             defines=['NN=%d' % fn], kind='bounded', unwind=nforests + 4, timeout=1800, mem_gb=32, cbmc_args=['--object-bits', '13'],
+             note='parent_cache::find twice on one cache, any two DIEs of every forest shape of <= %d DIEs (%d shapes enumerated, offsets symbolic)' % (fn, nforests)),
+         Job('parent_find_control', [os.path.join(HERE, 'pf_harness.c'), os.path.join(OUT, 'pf_bodies.c')], 'hb_parent_find_control', includes=inc,
+             defines=['NN=%d' % fn, 'VERIF_CONTROL'], kind='control', expect='fail', unwind=nforests + 4, timeout=600, cbmc_args=['--object-bits', '13']),
          Job('all_dies_control', isrc, 'hb_all_dies_control', includes=inc, defines=D + ['VERIF_CONTROL'], kind='control', expect='fail', unwind=9,
              timeout=600, cbmc_args=A),
          Job('parent_table_control', psrc, 'hb_parent_table_control', includes=inc, defines=['NN=%d' % pn, 'VERIF_CONTROL'], kind='control', expect='fail',
-             unwind=ntrees + 2, timeout=600, cbmc_args=A)]
+             unwind=ntrees + 2, timeout=600, mem_gb=16, cbmc_args=['--object-bits', '13'])]
     return J
 
 
@@ -74,14 +110,31 @@ TRUSTED = ['tools/cxx2c.py lowering', 'props/c02/dw_model*.h: assumed contract o
 ASSUMPTIONS = [
     'libdw is replaced by a forest model: DIEs numbered in section order with a parent array and ascending offsets; a unit DIE has no sibling; unit headers sit a fixed 11 bytes before their unit DIE',
     'std::vector<Dwarf_Off> / std::vector<pair<Dwarf_Off,Dwarf_Off>> are small inline arrays; copying an iterator object is a struct copy',
-    'BOUNDED: iterator: forests of <= 5 DIEs (6 in thorough), any shape, symbolic; parent table: every unit tree shape of <= 5 DIEs (7 in thorough) enumerated concretely, offsets symbolic',
-    'SLICE of C02: the DIE producers of builtin-dw.cc (per-input numbering), attribute iteration, `label`/`form`/`offset` words, root_cache, parent_cache::find (std::map + lower_bound) and everything elfutils does are NOT covered; abbreviations claiming children for childless DIEs are a libdw matter (dwarf_child contract)',
+    'parent_cache::find: the cache (std::map keyed by (Dwarf, unit offset)) and std::lower_bound are modelled (props/c02/pf_model.h); the comparator lambda is not lowered; every forest shape of <= 3 DIEs and every ordered pair of DIEs enumerated, offsets symbolic',
+    'BOUNDED: iterator: forests of <= 5 DIEs (6 in thorough), any shape, symbolic; parent table: every unit tree shape of <= 5 DIEs (6 in thorough) enumerated concretely, offsets symbolic',
+    'SLICE of C02: the DIE producers of builtin-dw.cc (per-input numbering), attribute iteration, `label`/`form`/`offset` words, root_cache and everything elfutils does are NOT covered (parent_cache::find is, bounded); abbreviations claiming children for childless DIEs are a libdw matter (dwarf_child contract)',
 ]
 EXPLANATION = 'Bounded check of the section-order DIE iterator and the parent table on the real code over a libdw model; see DESIGN.md section 4 C02.'
 
 
 def spec_files():
-    return [os.path.join(HERE, f) for f in ('dwit_harness.c', 'pc_harness.c', 'dw_model.h', 'dw_model2.h')]
+    return [os.path.join(HERE, f) for f in ('dwit_harness.c', 'pc_harness.c', 'pf_harness.c', 'dw_model.h', 'dw_model2.h', 'pf_model.h')]
+
+
+def forests(nmax):
+    """all parent arrays (section order) of forests with <= nmax DIEs: like unit_trees, but a new DIE may also start a new unit"""
+    out = []
+    def ext(par):
+        out.append(list(par))
+        if len(par) == nmax:
+            return
+        a = len(par) - 1
+        while a >= 0:
+            ext(par + [a])
+            a = par[a]
+        ext(par + [-1])
+    ext([-1])
+    return out
 
 
 def unit_trees(nmax):
@@ -112,10 +165,25 @@ def write_trees(nmax):
         f.write('};\n')
 
 
+def write_forests(nmax):
+    fs = forests(nmax)
+    with open(os.path.join(OUT, 'pf_forests.h'), 'w') as f:
+        f.write('/* GENERATED by props/c02/prop.py: all %d forest shapes with <= %d DIEs */\n' % (len(fs), nmax))
+        f.write('#define N_FORESTS %d\n' % len(fs))
+        f.write('static const unsigned FOREST_N[N_FORESTS] = {%s};\n' % ', '.join(str(len(t)) for t in fs))
+        f.write('static const int FOREST_PAR[N_FORESTS][NN] = {\n')
+        for t in fs:
+            f.write('  {%s},\n' % ', '.join(str(x) for x in (t + [-2] * nmax)[:nmax]))
+        f.write('};\n')
+
+
 def prepare(tier):
     a = vlib.extract('dwit', 'libzwerg/dwit.cc', IT_CFG, IT_ROOTS, OUT)
     b = vlib.extract('pc', 'libzwerg/cache.cc', PC_CFG, PC_ROOTS, OUT)
-    write_trees(5 if tier == 'quick' else 7)
+    write_trees(5 if tier == 'quick' else 6)
+    c = vlib.extract('pf', 'libzwerg/cache.cc', PF_CFG, PF_ROOTS, OUT)
+    b.report['functions'] += [f for f in c.report['functions'] if f['c_name'] == 'parent_cache_find']
+    write_forests(3)
     return {'unit': 'libzwerg/dwit.cc (all_dies_iterator, cu_iterator), libzwerg/cache.cc (parent_cache::populate_unit)', 'functions': a.report['functions'] + b.report['functions']}
 
 
